@@ -134,3 +134,94 @@ SPECS["C11"] = {
     "level_note": "no external reference needed (round trip); plain -O2 build for the sweeps",
     "assumptions": [],
 }
+
+
+# ---------------------------------------------------------------------------------------------- C05
+def fuzz(build, workers, runs, corpus, dic, max_len=256, max_time=600, **kw):
+    return [Run(build, mode="fuzz", n=runs, seed_off=i, label="%s-fuzz-%d" % (build, i),
+                fuzz={"seed_corpus": corpus if (i % 2 == 0) else None, "dict": dic, "max_len": max_len, "max_time": max_time},
+                timeout=max_time + 300, **kw) for i in range(workers)]
+
+
+def plan_c05(tier, seed):
+    if tier == "quick":
+        return checks("main", 4, 20000) + checks("plain", 1, 2000) + fuzz("fuzz", 4, 400000, "corpus/C05", "dict/json.dict", max_time=60)
+    return (checks("main", 4, 300000) + checks("nohook_avx2", 1, 100000) + checks("plain", 1, 50000)
+            + fuzz("fuzz", 10, 12000000, "corpus/C05", "dict/json.dict", max_len=512, max_time=900))
+
+
+SPECS["C05"] = {
+    "builds": {
+        "main": Build("main", "harness/c05_jsonsafe.cpp"),
+        "nohook_avx2": Build("nohook_avx2", "harness/c05_jsonsafe.cpp", hook=False, simd="avx2"),
+        "plain": Build("plain", "harness/c05_jsonsafe.cpp", san="plain", hook=False),
+        "fuzz": Build("fuzz", "harness/c05_jsonsafe.cpp", san="fuzz", defs=["VERIF_FUZZ"], link_rc=False),
+    },
+    "default_build": "main",
+    "bin_build": "fuzz",
+    "plan": plan_c05,
+    "rule": ("(a) rapidcheck: RFC 8259 documents from the C06 generator with 1-4 generated mutations (truncate, delete, structural replacement, "
+             "inserted NUL/unit, cut inside a token, duplicated slice, keyword followed by NULs, replace) and directed nesting classes "
+             "('[', '{\"a\":', alternating; depth 1..512; closed / unclosed / half closed / wrong inner bracket), widths char/char16_t/char32_t/wchar_t; "
+             "(b) libFuzzer: byte 0 selects the width, the rest are code units (0xFF escapes an arbitrary wide unit), JSON dictionary, "
+             "seed corpus on even workers and empty corpus on odd ones. Every input sits in an exact-size heap buffer without terminator. "
+             "non-trivial = contains a structural character and is rejected, or is accepted with depth >= 2; distinct by input"),
+    "engine": "libFuzzer + rapidcheck",
+    "technique": "coverage-guided fuzzing (libFuzzer, ASan/UBSan, oracle in the target) plus property-based mutation of valid documents and directed nesting depths (rapidcheck)",
+    "level_text": ("Memory safety is observed by AddressSanitizer/UBSan on exact-size buffers (one-past reads are redzone hits), termination by bounded "
+                   "work per input, the 512-level claim by directed depth classes in sanitizer and plain -O2 builds (default stack), completeness of "
+                   "accepted values by a recursive predicate, and allocation balance by the ledger. Sampling over an infinite input space."),
+    "level_note": "trusts ASan/UBSan to report invalid accesses; termination is only observed on generated inputs",
+    "assumptions": ["default 8 MiB main-thread stack for the nesting classes"],
+}
+
+
+# ---------------------------------------------------------------------------------------------- C06 / C07
+def plan_c06(tier, seed):
+    if tier == "quick":
+        return checks("main", 8, 30000)
+    return checks("main", 14, 150000) + checks("nohook_avx2", 2, 100000)
+
+
+SPECS["C06"] = {
+    "builds": {
+        "main": Build("main", "harness/c06_json.cpp"),
+        "nohook_avx2": Build("nohook_avx2", "harness/c06_json.cpp", hook=False, simd="avx2"),
+    },
+    "default_build": "main",
+    "plan": plan_c06,
+    "rule": ("case = entropy bytes -> (model tree with container top level: strings over the whole scalar range incl. U+0000 and astral planes, "
+             "numerals from the RFC grammar within range incl. 2^63/2^64 boundaries, -0, exponents; duplicate keys; depth <= 7) and an independent "
+             "spelling (whitespace at every legal place, short escapes, \\uXXXX in upper/lower/mixed hex, surrogate pairs), encoded to UTF-8/16/32; "
+             "non-trivial = contains an escape, a non-integer number, nesting >= 2 or a duplicate key; distinct by entropy and width"),
+    "engine": "rapidcheck",
+    "technique": "property-based testing (rapidcheck): documents spelled from a model tree, parsed result compared with the tree; strict reference parser validates the generator; python3 json cross-check of samples",
+    "level_text": ("JSON::Parse of generated RFC 8259 text is compared structurally with the tree the text was spelled from (member order, duplicate-key rule, "
+                   "code-unit-exact strings via a reference encoder, exact integers, reals within 1 ulp of strtod, lookup-by-key consistency). "
+                   "The generator itself is validated on every case by an independent strict RFC 8259 parser. Sampling."),
+    "level_note": "trusts the in-harness reference encoder / strict parser and glibc strtod",
+    "assumptions": ["lone surrogates are excluded (RFC 8259 section 8.2: unpredictable)"],
+}
+
+
+def plan_c07(tier, seed):
+    if tier == "quick":
+        return checks("main", 8, 8000)
+    return checks("main", 16, 40000)
+
+
+SPECS["C07"] = {
+    "builds": {"main": Build("main", "harness/c06_json.cpp", defs=["VERIF_C07"])},
+    "default_build": "main",
+    "plan": plan_c07,
+    "rule": ("for each generated container document D (C06 generator, no surrounding whitespace): all |D| proper prefixes at code-unit level, D + each of 14 "
+             "non-whitespace units (with and without a space before), every structural closing bracket replaced by the other kind, every inner closing "
+             "bracket removed; each variant is one evaluation and must parse to Undefined while D itself must be accepted; "
+             "non-trivial = document with nesting >= 2, an escape or more than 8 code points; distinct by entropy and width"),
+    "engine": "rapidcheck",
+    "technique": "property-based testing (rapidcheck) with an inner exhaustive enumeration of every cut point / bracket damage per generated document",
+    "level_text": ("Every proper prefix, trailing-garbage variant and bracket-damaged variant of generated valid documents must yield Undefined; the undamaged "
+                   "document must be accepted (non-vacuity). Per document the variants are enumerated completely; documents are sampled."),
+    "level_note": "relies on the C06 generator producing valid documents (validated there by the strict reference parser)",
+    "assumptions": [],
+}
